@@ -53,7 +53,7 @@ Section WDyn.
     | _ => false
     end.
 
-  (* the statements of a table with its delegation inlined.  Admitted shape (all tables of the package have it):
+  (* the statements of a table with its delegation inlined.  Accepted shape (all tables of the package have it):
      the flag starts at false; a call of another table function stands first, accumulated with `=` or `|| notEmpty`
      (both leave the callee's flag: nothing was written before); everything else is plain. *)
   Fixpoint inline_w (d : nat) (name : bytes) : option (list wstmt) :=
